@@ -1,8 +1,7 @@
 """Explanation machinery for the known f-string findings (C10).
 
 neutralise(src) rewrites every f-string literal of `src`, removing exactly the features that the
-listed known findings are about (doubled braces, '=' debug fields, nested
-'='-leading specs, non-ASCII
+listed known findings are about (doubled braces at token level, whitespace after a conversion, non-ASCII
 characters) and returns the rewritten text plus the set of families it touched.  A difference
 between the implementation and CPython counts as *explained* only if the rewritten text -- the
 same literal without those features -- shows no difference at all; otherwise it stays a
@@ -60,10 +59,6 @@ def _scan_field(s: str, i: int, out: list, fam: set, raw: bool = False) -> int:
             break
         j += 1
     expr = s[expr_start:j]
-    stripped = expr.rstrip()
-    if stripped.endswith("=") and not stripped.endswith(("==", "!=", "<=", ">=")):
-        fam.add("debug")
-        expr = stripped[:-1].rstrip() or "x"
     if not expr.isascii():
         fam.add("nonascii")
         expr = "".join(ch if ch.isascii() else "e" for ch in expr)
@@ -97,9 +92,6 @@ def _scan_field(s: str, i: int, out: list, fam: set, raw: bool = False) -> int:
             spec.append(c)
             k += 1
         text = "".join(spec)
-        if text.startswith("="):
-            fam.add("walrus_like_spec")
-            text = ">" + text[1:]
         out.append(":" + text)
         j = k
     out.append("}")
@@ -180,8 +172,6 @@ def neutralise(src: str) -> tuple[str, set]:
 
 FAMILY_FINDING = {
     "doubled_brace": "K-C10-doubled-brace-tokens",
-    "debug": "K-C10-debug-equals",
-    "walrus_like_spec": "K-C10-walrus-like-spec",
     "nonascii": "K-C10-nonascii-columns",
     "conversion_space": "K-C10-conversion-space",
 }
